@@ -72,6 +72,8 @@ def validate(behaviours, module, cfg, workdir, chunk_lines=4000, timeout=900, jo
                 broken.append(r); continue
             # locate the behaviour holding the first unmatched line
             m = r["matched"] if r["matched"] is not None else 0
+            if r["violated"] and m > 0:
+                m -= 1      # an invariant failed in the state REACHED by line m-1 (that line was consumed): it is the offending one
             pos = 0; hit = None
             for bi in chunks[ci]:
                 if m < pos + len(behaviours[bi]):
